@@ -17,6 +17,8 @@ import (
 // Ctx is the resolved program under analysis: typed syntax + SSA of /repo/src.
 type Ctx struct {
 	lineScopeCache map[*ssa.Function]bool
+	memoCache      map[*ssa.Global]*memoInfo
+	noGoroutines   int // 0 unknown, 1 none, 2 some
 	RepoDir string
 	Tier    string
 	Fset    *token.FileSet
